@@ -59,8 +59,7 @@ def _worker(job):
         t = TIERS[tier]
         ses = Session(t["timeout_ms"], use_cvc5=True, recheck_cvc5=t["recheck"])
         if kind == "fn":
-            c = plan["contracts"][key] if "contracts" in plan and key in plan["contracts"] \
-                else reg.contracts[key]
+            c = reg.all[key]
             rep = verify_function(reg, ses, c)
             cinfo = _contract_info(reg, c)
         else:
